@@ -20,6 +20,21 @@ claim("C16", "static: exhaustive mutator classification over the call graph + gu
       "that data stays byte-identical, interleavings with replication apply, the start-up window before SetReadOnly(true).",
       "DESIGN.md §2 C16")
 
+claim("C20", "static: validate-before-write / validate-after-load dominance on SSA, constraint table extracted from the validator's branch conditions, JSON field table from types, no-silent-default path rule",
+      "every file-system write in SaveManifest/Manifest.Save is dominated by a successful validation and goes temp-file-then-rename; every configuration-returning exit of the loaders is dominated by a checked json.Unmarshal and a successful validation; NewEngineFacade creates defaults only on the ErrManifestNotFound edge, which the loader returns only under os.IsNotExist; the rejection atoms extracted from the validator cover the documented constraint table; every Config field round-trips by type; SaveManifest does not re-lock its mutex.",
+      "value-level behaviour at the boundaries, float formatting, crash during save.",
+      "DESIGN.md §2 C20")
+
+claim("C17", "static: CAS/flag guard dominance, must-pass-through release on every exit, who-may-unlock table, finish-before-removal path rule, channel typestate for the begin hand-off",
+      "Commit/Rollback effects are dominated by the successful swap of active and the failing arm returns the closed error; operations test active first; after the swap every exit passes the release helper of the transaction's mode; helpers are CAS-guarded and the only unlockers of txLock; every removal from the registry (map delete, Remove call sites) is preceded on all paths by Commit/Rollback; the begin hand-off is an unbuffered rendezvous whose timeout arm rolls back; the sweeper has both staleness criteria.",
+      "timing of the sweeper and of timeouts, liveness for all call sequences.",
+      "DESIGN.md §2 C17")
+
+claim("C04", "static: strict-2PL bracket decided structurally (acquire-at-begin, release-at-end must-pass rules, apply-before-release never-after rule, buffer-first lookup/merge order)",
+      "BeginTransaction acquires txLock on every success exit in the mode that matches the stored transaction mode (ReadOnly ⇔ readOnly argument ⇔ RLock) and sets the matching flag after acquiring; Commit/Rollback release it on every exit after the active swap through CAS-guarded helpers that are the only unlockers; ApplyBatch is never reachable after a release and occurs exactly once per Commit; Get consults the buffer first and storage only on a miss; the buffer iterator is source 0 of every transactional merge and is bounded like the storage range.",
+      "equivalence of all interleavings to a serial order (needs recorded histories); writes issued outside transactions are excluded by the property itself.",
+      "DESIGN.md §2 C04")
+
 NOT_APPLICABLE_PENDING = "rules for this property are not built yet (work in progress, see DESIGN.md §2); nothing is claimed until the check exists"
 
 def main():
